@@ -522,3 +522,31 @@ def check_c03_all(ctx, R):
     n = _position_counters(ctx, R, ctx.P.cls(COMP, "ComposeEdif"), "B4", 1)
     R.count("hand-maintained position counters (B4)", n)
     R.floor("hand-maintained position counters (B4)", 1)
+    # B5: the reader parks names it has just read (identifier, original identifier, the names inside a reference) under scratch keys
+    # of the element under construction; whoever picks one up removes it.  A read that leaves it in place hands the same name to
+    # the next construct (a later property inherits a rename it never had) or leaves it in the element's data.
+    R.rule("B5", "scratch keys of the element under construction are consumed (pop), never copied")
+    par = ctx.P.cls("spydrnet/parsers/edif/parser.py", "EdifParser")
+    k = 0
+
+    def is_element_slot(e):
+        return isinstance(e, ast.Subscript) and norm(e.value) == "self.elements" and isinstance(e.slice, ast.UnaryOp)
+
+    for mname, f in sorted(par.methods.items()):
+        for c in walk_local(f.node):
+            if isinstance(c, ast.Call) and isinstance(c.func, ast.Attribute) and is_element_slot(c.func.value) and c.func.attr in ("pop", "get", "setdefault"):
+                k += 1
+                if c.func.attr == "pop":
+                    R.ok("B5", "%s consumes %s" % (f.qualname, short(c.args[0], 50) if c.args else "?"), f.loc(c))
+                else:
+                    R.bad("B5", "%s|%s %s" % (f.key, c.func.attr, short(c.args[0], 40) if c.args else ""), f.loc(c),
+                          "%s reads the scratch key `%s` of the element under construction with .%s(): the entry stays behind, so the next construct "
+                          "parsed into the same element picks the stale name up again (properties after a renamed one inherit its original name)"
+                          % (f.qualname, short(c.args[0], 50) if c.args else "?", c.func.attr))
+            elif isinstance(c, ast.Subscript) and isinstance(c.ctx, ast.Load) and is_element_slot(c.value) \
+                    and not (isinstance(c.slice, ast.Constant) and c.slice.value == "metadata_prefix"):
+                k += 1
+                R.bad("B5", "%s|subscript %s" % (f.key, short(c.slice, 40)), f.loc(c),
+                      "%s reads the scratch key `%s` of the element under construction without removing it" % (f.qualname, short(c.slice, 50)))
+    R.count("scratch-key reads in the EDIF reader (B5)", k)
+    R.floor("scratch-key reads in the EDIF reader (B5)", 6)
